@@ -19,7 +19,7 @@ const B: u32 = 0x3C6586;
 fn level(t: Tier) -> Level {
     Level {
         category: "model_checking",
-        rule: if t.thorough() { "all sequences of length 5 over a 15-symbol alphabet x 15 filter sets" } else { "all sequences of length 4 over a 15-symbol alphabet x 15 filter sets" },
+        rule: if t.thorough() { "all sequences of length 5 over a 15-symbol alphabet x 15 filter sets (lists given in non-ascending order on the command line: -f 21 -f 4, -f 18 -f 11 -f 17)" } else { "all sequences of length 4 over a 15-symbol alphabet x 15 filter sets (lists given in non-ascending order on the command line: -f 21 -f 4, -f 18 -f 11 -f 17)" },
         assumptions: vec![
             "state = (per-DF counter map, table); transition = one input line; each sequence is one run of the real reader thread with stdout captured, every prefix prints its counter line (--update=-1 -c)".into(),
             "reference: fold counting accepted, non-zero-address, filter-passing frames per DF; which symbols are accepted is known by construction (valid CRC / corrupted / zero address / junk)".into(),
@@ -78,8 +78,8 @@ fn filter_sets() -> Vec<Option<Vec<u32>>> {
     for d in [0u32, 4, 5, 11, 16, 17, 18, 20, 21, 24] {
         v.push(Some(vec![d]));
     }
-    v.push(Some(vec![4, 21]));
-    v.push(Some(vec![11, 17, 18]));
+    v.push(Some(vec![21, 4]));
+    v.push(Some(vec![18, 11, 17]));
     v.push(Some(vec![0, 16]));
     v.push(Some(vec![99]));
     v
